@@ -15,9 +15,15 @@ def rand_rho(rng, n, pure=False):
 
 def make_step(rng, n, ndim):
     mass = [10 ** rng.uniform(2, 4) for _ in range(ndim)]
+    full = rng.random() < 0.5      # diabatic-like: real symmetric H with off-diagonal elements
     def elec():
         e = sorted(rng.uniform(-0.05, 0.05) for _ in range(n))
-        return StubElec(np.diag(e), rand_antisym_dc(rng, n, ndim, 1.0), np.zeros((n, ndim)))
+        H = np.diag(e)
+        if full:
+            for i in range(n):
+                for j in range(i):
+                    H[i, j] = H[j, i] = rng.uniform(-0.03, 0.03)
+        return StubElec(H, rand_antisym_dc(rng, n, ndim, 1.0), np.zeros((n, ndim)))
     return mass, elec(), elec()
 
 
